@@ -1,5 +1,6 @@
 import DocsModel.Lemmas.Reach
 import DocsModel.Model.Migrations
+import DocsModel.Props.C07
 /-!
 # C18 — opening an older database rebuilds derived tables exactly; reopening is a no-op
 
@@ -207,5 +208,122 @@ example :
     let e (k : UInt8) (ts : Nat) : Entry := { ns := zero32, author := ff32, key := [k], ts := ts, len := 1, hash := [k] }
     let t : T := { records := [e 1 7, e 2 9, e 3 9] }
     (reopen t).latest = [(zero32, ff32, 9, [3])] ∧ (reopen t).byKey.length = 3 := by decide
+
+end Tables
+
+/-! ### the first-generation capability table (`migration_002` / `003`) -/
+
+namespace Tables
+
+/-- distinct document ids in a capability table -/
+def DistinctIds (l : List (Bytes × Nat × Bytes)) : Prop := l.Pairwise (fun a b => a.1 ≠ b.1)
+
+theorem find_of_mem_distinct {l : List (Bytes × Nat × Bytes)} (hd : DistinctIds l) {r : Bytes × Nat × Bytes}
+    (hr : r ∈ l) : l.find? (fun x => x.1 == r.1) = some r := by
+  induction l with
+  | nil => cases hr
+  | cons x xs ih =>
+    rw [DistinctIds, List.pairwise_cons] at hd
+    rcases List.mem_cons.mp hr with h | h
+    · subst h; simp
+    · have hne : x.1 ≠ r.1 := hd.1 r h
+      have : (x.1 == r.1) = false := beq_false_of_ne hne
+      rw [List.find?_cons, this]
+      exact ih hd.2 h
+
+theorem find_none_of_no_id {l : List (Bytes × Nat × Bytes)} {id : Bytes} (h : ∀ r ∈ l, r.1 ≠ id) :
+    l.find? (fun x => x.1 == id) = none := by
+  rw [List.find?_eq_none]
+  intro r hr
+  simp only [beq_iff_eq]
+  exact h r hr
+
+theorem nsGet_insert (t : T) (r : Bytes × Nat × Bytes) (id : Bytes) :
+    nsGet { t with namespaces := nsInsert r t.namespaces } id = if r.1 = id then some r.2 else nsGet t id := by
+  unfold nsGet
+  by_cases h : r.1 = id
+  · subst h
+    simp only [if_true]
+    rw [find_nsInsert_same]; rfl
+  · simp only [h, if_false]
+    rw [find_nsInsert_other _ _ _ (fun hh => h hh.symm)]
+
+/-- what `migration_002` leaves in the capability table, for rows with distinct ids -/
+theorem nsGet_migration002 (w : List (Bytes × Nat × Bytes)) (hd : DistinctIds w) (t : T) (id : Bytes) :
+    nsGet (migration002 t (w.map fun r => (r.1, r.2.2))) id =
+      match w.find? (fun x => x.1 == id) with
+      | some r => some (1, r.2.2)
+      | none => nsGet t id := by
+  induction w generalizing t with
+  | nil => rfl
+  | cons r rest ih =>
+    rw [DistinctIds, List.pairwise_cons] at hd
+    have hstep : migration002 t ((r :: rest).map fun r => (r.1, r.2.2)) =
+        migration002 { t with namespaces := nsInsert (r.1, 1, r.2.2) t.namespaces } (rest.map fun r => (r.1, r.2.2)) := rfl
+    rw [hstep, ih hd.2]
+    by_cases h : r.1 = id
+    · subst h
+      have hnone : rest.find? (fun x => x.1 == r.1) = none :=
+        find_none_of_no_id (fun x hx hh => hd.1 x hx hh.symm)
+      rw [hnone, List.find?_cons]
+      simp only [beq_self_eq_true]
+      rw [nsGet_insert]
+      simp
+    · have hb : (r.1 == id) = false := beq_false_of_ne h
+      rw [List.find?_cons, hb]
+      cases hf : rest.find? (fun x => x.1 == id) with
+      | some x => rfl
+      | none =>
+        simp only
+        rw [nsGet_insert]
+        simp [h]
+
+/-- **A database whose write capabilities live in the first-generation table opens with every
+document's capability as it was**: moving the write rows to `namespaces-1` and opening
+(`migration_002`, `003`) restores `nsGet` for every id. -/
+theorem migration_002_restores_capabilities (t : T) (hd : DistinctIds t.namespaces) (id : Bytes) :
+    nsGet (migration002 (toV1 t).1 (toV1 t).2) id = nsGet t id := by
+  unfold toV1
+  simp only
+  have hdw : DistinctIds (t.namespaces.filter (fun r => r.2.1 == 1)) := List.Pairwise.sublist List.filter_sublist hd
+  have hdb : DistinctIds (t.namespaces.filter (fun r => r.2.1 != 1)) := List.Pairwise.sublist List.filter_sublist hd
+  rw [nsGet_migration002 _ hdw]
+  cases hf : t.namespaces.find? (fun x => x.1 == id) with
+  | none =>
+    have hno : ∀ r ∈ t.namespaces, r.1 ≠ id := by
+      intro r hr hh
+      have := List.find?_eq_none.mp hf r hr
+      simp [hh] at this
+    rw [find_none_of_no_id (fun r hr => hno r (List.mem_filter.mp hr).1)]
+    simp only [nsGet]
+    rw [find_none_of_no_id (fun r hr => hno r (List.mem_filter.mp hr).1), hf]
+  | some row =>
+    have hmem := List.mem_of_find?_eq_some hf
+    have hid : row.1 = id := by
+      have := List.find?_some hf
+      simpa using this
+    subst hid
+    by_cases hk : row.2.1 = 1
+    · have hw : row ∈ t.namespaces.filter (fun r => r.2.1 == 1) := List.mem_filter.mpr ⟨hmem, by simp [hk]⟩
+      rw [find_of_mem_distinct hdw hw]
+      simp only [nsGet, hf, Option.map_some]
+      obtain ⟨a, k, sec⟩ := row
+      simp only at hk
+      subst hk
+      rfl
+    · have hb : row ∈ t.namespaces.filter (fun r => r.2.1 != 1) := List.mem_filter.mpr ⟨hmem, by simp [hk]⟩
+      have hnone : (t.namespaces.filter (fun r => r.2.1 == 1)).find? (fun x => x.1 == row.1) = none := by
+        apply find_none_of_no_id
+        intro r hr hh
+        obtain ⟨hr1, hr2⟩ := List.mem_filter.mp hr
+        have := find_of_mem_distinct hd hr1
+        rw [hh, hf] at this
+        injection this with this
+        subst this
+        simp at hr2
+        exact hk hr2
+      rw [hnone]
+      simp only [nsGet]
+      rw [find_of_mem_distinct hdb hb, hf]
 
 end Tables
